@@ -13,7 +13,11 @@ Block1 request bodies by byte offset `num * 2**(szx+4)`, hands a completed body 
 size exponent not larger than the request's (`choice`), so size reductions can happen at any
 block.  A request of the upload phase may carry the client's size hint Block2 = (0, _, szx): the
 first block of the representation is then served at an exponent not above it (section 2.4).
-`mis` optionally makes it deviate once: violate a sequencing rule (MUST_ERROR), behave
+Size exponent 7 (BERT, RFC 8323 section 6; a client whose remote has maximum_block_size_exp 7 sends it) is
+understood in requests: offsets count in 1024-byte units and a non-final block carries a positive multiple of
+1024 bytes.  The server's OWN exponents are 0..6 unless it is created with `bert=k` (a BERT peer: exponent 7 is
+echoed / used, its Block2 blocks carry k KiB).
+`mis` optionally makes it deviate once (two kinds, `hollow` and `confused`, deviate for good): violate a sequencing rule (MUST_ERROR), behave
 unusually but correctly (MUST_SUCCEED), or end the transfer itself with ONE response that is
 complete in CoAP terms (EXACT_REPLY: the caller must get exactly that response).  What
 `ignore_block1` amounts to depends on the block it hits and on the code (see there): the server
@@ -41,7 +45,14 @@ TOO_LARGE = 141        # 4.13
 MUST_ERROR = {"wrongnum1", "more_on_final", "continue_on_final", "b1_unfrag_more",
               "b1_unfrag_wrongnum", "etag_change", "short_block", "long_block", "gap", "dup",
               "unscaled", "first_nonzero", "first_late_final", "code_change",
-              "continue_no_block1", "b2_szx_grows", "first_above_hint"}
+              "continue_no_block1", "b2_szx_grows", "first_above_hint", "hollow", "confused"}
+#   hollow              from the n-th Block2 response on, EVERY Block2 response says "more to come" and carries
+#                       no payload at all (missing payload bytes): a client that accepts such a block makes no
+#                       progress and asks for the same block for ever
+#   confused            the payload lengths disagree with the announced size for good: the server cuts the
+#                       representation into pieces of `mult` x the announced block size and numbers the PIECES
+#                       (piece i is labelled NUM=i): a client that takes "a whole number of blocks" for valid
+#                       asks for piece 2, 4, 6 ... and returns a body with holes
 # unusual but harmless behaviour -> the transfer must still deliver both bodies
 #   observe_continue    an Observe option in an intermediate 2.31 (the client asked to observe the result): the
 #                       client drops that erroneous observation and goes on
@@ -78,14 +89,22 @@ def is_successful(code):
     return 64 <= code < 96
 
 
+def usize(szx):
+    """bytes per unit of the block number: 2**(szx+4), and 1024 for BERT (szx 7)"""
+    return 16 << min(szx, 6)
+
+
 def pattern(n, seed):
     """n bytes in which every 16-byte block is different"""
     return hashlib.shake_128(b"c05:%d" % seed).digest(n) if n else b""
 
 
 class RefServer:
-    def __init__(self, rep, etag, code, choices, default_choice, limit=None, mis=None, observe_final=None):
+    def __init__(self, rep, etag, code, choices, default_choice, limit=None, mis=None, observe_final=None,
+                 bert=None):
         self.rep, self.etag, self.code = rep, etag, code
+        self.bert = bert            # None: the server's own exponents are 0..6; k: a BERT peer, blocks of k KiB
+        self.persistent = False     # hollow / confused: the deviation has begun and goes on
         self.observe_final = observe_final   # Observe value of the response that carries (block 0 of) rep
         self.expected = None        # EXACT_REPLY: (code, etag, payload) the caller must get
         self.klass = None           # "error" / "exact": what a deviation amounts to where that depends on what it hit
@@ -104,18 +123,23 @@ class RefServer:
 
     # ---- conforming behaviour ------------------------------------------------------------
     def _slice(self, off, szx, ack, rep=None, etag="same"):
-        size = 16 << szx
+        size = 1024 * self.bert if szx == 7 else 16 << szx
         rep = self.rep if rep is None else rep
-        return Reply(self.code, ack, (off // size, off + size < len(rep), szx),
+        return Reply(self.code, ack, (off // usize(szx), off + size < len(rep), szx),
                      self.etag if etag == "same" else etag, rep[off:off + size])
+
+    def _cap(self, cszx, reqszx):
+        """the exponent used in a response: the server's choice, never above the request's, never above the
+        server's own maximum"""
+        return min(cszx, reqszx, 7 if self.bert else 6)
 
     def _respond(self, body, ack, reqb2, choice):
         self.responded = True
         self.buf = b""
         self.recorded.append(body)
         cszx, explicit = choice
-        szx = min(cszx, min(reqb2[2], 6) if reqb2 is not None else 6)
-        if len(self.rep) > (16 << szx) or explicit:
+        szx = self._cap(cszx, reqb2[2] if reqb2 is not None else 7)
+        if len(self.rep) > (1024 * self.bert if szx == 7 else 16 << szx) or explicit:
             return self._slice(0, szx, ack)._replace(observe=self.observe_final)
         return Reply(self.code, ack, None, self.etag, self.rep, self.observe_final)
 
@@ -124,24 +148,20 @@ class RefServer:
         cszx, _ = choice
         if b2 is not None and b2[0] != 0:
             num, _, szx = b2
-            if szx > 6:
-                return Reply(BAD_REQUEST, None, None, None, b"")
-            off = num * (16 << szx)
+            off = num * usize(szx)
             if off >= len(self.rep):
                 return Reply(BAD_REQUEST, None, None, None, b"")
-            return self._slice(off, min(cszx, szx), None)
+            return self._slice(off, self._cap(cszx, szx), None)
         if b1 is None:
             return self._respond(payload, None, b2, choice)
         num, more, szx = b1
-        if szx > 6:
-            return Reply(BAD_REQUEST, None, None, None, b"")
-        if more and len(payload) != (16 << szx):
+        if more and (len(payload) != (16 << szx) if szx < 7 else (not payload or len(payload) % 1024)):
             return Reply(BAD_REQUEST, None, None, None, b"")
         buf = b"" if num == 0 else self.buf
-        if num * (16 << szx) != len(buf):
+        if num * usize(szx) != len(buf):
             self.buf = b""
             return Reply(INCOMPLETE, None, None, None, b"")
-        ack = (num, more, min(cszx, szx))
+        ack = (num, more, self._cap(cszx, szx))
         if more:
             self.buf = buf + payload
             return Reply(CONTINUE, ack, None, None, b"")
@@ -168,6 +188,24 @@ class RefServer:
         b1, b2, payload = req
         cont = b2 is not None and b2[0] != 0      # continuation of a Block2 download
         if k is None or k == "stall":
+            return rep
+        if k == "hollow":
+            if rep.block2 is not None and (self.persistent or self._hit()):
+                self.persistent = True
+                return rep._replace(block2=(rep.block2[0], True, rep.block2[2]), payload=b"")
+            return rep
+        if k == "confused":
+            if rep.block2 is not None and rep.block2[2] < 7 and rep.code == self.code:
+                szx = rep.block2[2]
+                piece = (16 << szx) * self.mis.get("mult", 2)
+                num = b2[0] if cont else 0
+                off = num * piece
+                if off < len(self.rep) and (off + piece < len(self.rep) or cont):
+                    self.triggered = True
+                    if self.trigger_index is None:
+                        self.trigger_index = self.exchanges - 1
+                    return rep._replace(block2=(num, off + piece < len(self.rep), szx),
+                                        payload=self.rep[off:off + piece])
             return rep
         if k == "stateless_acks":                 # RFC 7959 §2.3: block-by-block processing
             if rep.block1 is not None and rep.block1[1]:
@@ -243,27 +281,32 @@ class RefServer:
                 num, more, szx = rep.block2
                 # the changed representation's ETag: another value, or none at all ("none"; an ETag is optional)
                 e = self.mis.get("etag", "ee")
-                return self._slice(num * (16 << szx), szx, None, rep=self.other,
+                return self._slice(num * usize(szx), szx, None, rep=self.other,
                                    etag=None if e == "none" else bytes.fromhex(e))
         elif k == "short_block":
             if rep.block2 is not None and rep.block2[1] and self._hit():
                 cut = 1 + self.mis.get("cut", 0) % len(rep.payload)
+                if rep.block2[2] == 7 and cut < len(rep.payload) and (len(rep.payload) - cut) % 1024 == 0:
+                    cut += 1                          # a shorter whole number of KiB is a valid BERT block
                 return rep._replace(payload=rep.payload[:-cut])
         elif k == "long_block":
-            if rep.block2 is not None and (rep.block2[1] or cont) and self._hit():
-                size = 16 << rep.block2[2]
+            # (the last block of a BERT transfer may have any length: nothing to violate there)
+            if rep.block2 is not None and (rep.block2[1] or (cont and rep.block2[2] < 7)) and self._hit():
+                size = 16 << rep.block2[2] if rep.block2[2] < 7 else len(rep.payload)
                 extra = size - len(rep.payload) + 1 + self.mis.get("extra", 0)
+                if rep.block2[2] == 7 and (len(rep.payload) + extra) % 1024 == 0:
+                    extra += 1                        # a longer whole number of KiB is a valid BERT block
                 return rep._replace(payload=rep.payload + b"\xAA" * extra)
         elif k == "gap":
             if cont and rep.block2 is not None and rep.block2[1] and self._hit():
                 num, more, szx = rep.block2
-                return self._slice((num + 1) * (16 << szx), szx, None)
+                return self._slice(num * usize(szx) + max(len(rep.payload), usize(szx)), szx, None)
         elif k == "dup":
             if cont and rep.block2 is not None and self._hit():
                 num, more, szx = rep.block2
-                return self._slice((num - 1) * (16 << szx), szx, None)
+                return self._slice((num - 1) * usize(szx), szx, None)
         elif k == "unscaled":
-            if cont and rep.block2 is not None and rep.block2[2] < b2[2] and self._hit():
+            if cont and rep.block2 is not None and usize(rep.block2[2]) < usize(b2[2]) and self._hit():
                 return rep._replace(block2=(b2[0],) + rep.block2[1:])
         elif k == "first_nonzero":
             if not cont and rep.block2 is not None and rep.block2[1] and self._hit():
@@ -273,7 +316,7 @@ class RefServer:
             if not cont and self.responded and self._hit():
                 szx = rep.block2[2] if rep.block2 is not None else min(choice[0], 6)
                 num = 1 + self.mis.get("delta", 0)
-                tail = self.rep[num * (16 << szx):][:16 << szx] or self.rep[-(16 << szx):] or b"tail"
+                tail = self.rep[num * usize(szx):][:usize(szx)] or self.rep[-usize(szx):] or b"tail"
                 return rep._replace(block2=(num, False, szx), payload=tail)
         elif k == "code_change":
             # a continuation block arrives with another response code than the first block
@@ -299,10 +342,11 @@ class RefServer:
         elif k == "b2_szx_grows":
             # only where the larger block is aligned with the requested offset, so that nothing but the
             # exponent is wrong with it
-            if cont and rep.block2 is not None and b2[2] < 6:
-                szx = min(6, b2[2] + self.mis.get("by", 1))
-                off = b2[0] * (16 << b2[2])
-                if off % (16 << szx) == 0 and self._hit():
+            top = 7 if self.bert else 6
+            if cont and rep.block2 is not None and b2[2] < top:
+                szx = min(top, b2[2] + self.mis.get("by", 1))
+                off = b2[0] * usize(b2[2])
+                if off % usize(szx) == 0 and self._hit():
                     return self._slice(off, szx, None)
         else:
             raise ValueError("unknown misbehaviour %r" % (k,))
